@@ -70,6 +70,9 @@ type RunOut struct {
 	World   *World
 }
 
+// oblFilter (debugging, dump only): solve only obligations whose name contains it
+var oblFilter string
+
 func runProperty(repo, prop string, cfg BuildConfig, timeoutS int, scratch string, only string, thorough bool) (*RunOut, error) {
 	t0 := time.Now()
 	files, err := contractFilesFor(repo, prop)
@@ -133,6 +136,9 @@ func runProperty(repo, prop string, cfg BuildConfig, timeoutS int, scratch strin
 	for _, u := range units {
 		for _, o := range u.obls {
 			u, o := u, o
+			if oblFilter != "" && !strings.Contains(o.Name, oblFilter) {
+				continue
+			}
 			rwg.Add(1)
 			go func() {
 				defer rwg.Done()
@@ -192,6 +198,7 @@ func cmdDump(args []string) {
 	only := fs.String("only", "", "")
 	timeout := fs.Int("timeout", 20, "")
 	keep := fs.String("scratch", "", "")
+	fs.StringVar(&oblFilter, "obl", "", "solve only obligations whose name contains this")
 	fs.Parse(args)
 	scratch := *keep
 	if scratch == "" {
